@@ -23,7 +23,7 @@ EXPLANATION = (
     "formulation table (layer bound min(len(to_fix), k), multiplicity guard, protection-set skip, builders of the protection set), and so do "
     "the subpath/subset-constraint rows through which the safety-as-constraints options act; "
     "(R5) greedy / guessed-weights results are adopted only under the tests that tie them to the k under test; (R6) every option key "
-    "written is read under the same spelling; (R7) constraint edges enter the trusted set only under a full-coverage test.  "
+    "written is read under the same spelling; (R7) constraint edges enter the trusted set only under a full-coverage test; (R8) the flow-safe paths imposed by the flow-safety option are computed with the strict excess-flow threshold.  "
     "NOT decided: that fixing safe sequences / pruning edges preserves the optimum (C06), equality of optima."
 )
 DECIDED = ["flag <-> constraint pairing and consumer mapping", "flag producers run before consumers", "bound route == constraint route",
@@ -120,3 +120,7 @@ def check(prog: Program, rep):
     semantic.option_keys(prog, rep, "C05.R6")
     rep.rule("C05.R7", "trusted-edge providers", floor=8)
     semantic.trusted_edge_providers(prog, rep, "C05.R7")
+    rep.rule("C05.R8", "the flow-safe paths that the flow-safety option imposes are computed with the strict excess-flow threshold (C06.R4)", floor=1)
+    from rules.c06 import flow_safety_threshold
+    from rules.common import RuleProxy
+    flow_safety_threshold(prog, RuleProxy(rep, "C05.R8"), "C06.R4")
